@@ -105,6 +105,15 @@ def jobs(tier):
                        defines=["-DH_RFI_WINDOW", "-DRFI_N=%d" % n, "-DRFI_FIX_N=%d" % n, "-DRFI_FIX_M=%d" % m],
                        unwind=8, kind="bounded", canary=(n == 3 and m == 3), functions=["_vnacal_rfi"],
                        bound="bounded(n=%d, m=%d)" % (n, m), timeout=300, cbmc_flags=["--slice-formula"]))
+    # "calibration error terms used by apply": evaluated at the requested frequency, over the calibration's own grid, with an
+    # order that depends on the calibration only (recording _vnacal_rfi contract in the apply frame of C01, re-run here)
+    import C01
+    for j in C01.jobs(tier):
+        if re.match(r"apply_frame\.(T8|UE14|E12)_f2$", j.name):
+            j.name = "error_terms." + j.name
+            j.canary = False
+            j.imported = True
+            J.append(j)
     return J
 
 
